@@ -80,6 +80,7 @@ class World:
         self.prop = prop
         self.tier = tier
         self.now = 0.0            # simulated seconds
+        self.clock_reads = 0
         self.seq = 0              # global event sequence number
         self.events = []
         self.faults = Counter()   # fault kinds that actually fired
